@@ -180,6 +180,13 @@ def corpus():
         _ucase(["#sort.order Unsorted"], ["Unsorted", None], [["chr2", "9", "9"], ["chr1", "10", "10"]]),
         _ucase(["#sort.order Karyotypic", "#sort.order Coordinate"], ["Coordinate", None], [["chr2", "9", "9"], ["chr1", "10", "10"]]),
         _ucase([], [None, None], [["chr2", "9", "9"], ["chr1", "10", "10"]]),
+        # falsy values: contigs "0","1" under a typed scheme (chromosome int 0), by name and by contig rank; position 0 untyped
+        _tcase(["#sort.order Coordinate"], ["Coordinate", None],
+               [dict(chrom="0", start="5", end="5"), dict(chrom="0", start="7", end="7"), dict(chrom="1", start="1", end="1"),
+                dict(chrom="X", start="1", end="1")]),
+        _tcase(["#sort.order BarcodesAndCoordinate", "#contigs 1,0"], ["BarcodesAndCoordinate", ["1", "0"]],
+               [dict(chrom="1", start="5", end="5", normal=""), dict(chrom="0", start="1", end="1", normal=""), dict(chrom="0", start="1", end="2")]),
+        _ucase(["#sort.order Coordinate", "#contigs 0,1"], ["Coordinate", ["0", "1"]], [["0", "0", "0"], ["0", "0", "1"], ["1", "0", "0"], ["0", "5", "5"]]),
     ]
 
 
